@@ -11,6 +11,7 @@ def run(tier, seed):
     c.assumptions = [
         "claimed part (a): for every numeric instruction of the WAT token list a one-instruction function is written in text, assembled by the tree's wat2wasm, and the resulting binary - read by an independent binary reader and executed symbolically - computes the WebAssembly 1.0 result (or trap) of the instruction written in the text for every operand value; NaN payloads are not compared",
         "claimed part (b): every load/store instruction with four (offset, align) immediate variants (symbolic data, three base addresses), and a hand-written control module: branch depths, br_table with default, backward loop branch, if/else with result, tee/drop/select, direct and indirect calls (with trap), globals, memory.size/grow, i32/i64 constants at LEB128 boundaries",
+        "claimed part (c): a declaration module: data strings with every escape form at their offsets, globals of the four types with their initial values, the start function's effect, inline and stand-alone exports, an imported function (index space, arguments) and an imported global, float constants at rounding boundaries, parameter/local indexing, block/loop/if results, nop, memory.copy/fill, unreachable",
         "not claimed: equality of section layout with WABT, the name section, validation of arbitrary modules (no reference assembler or validator in the sandbox)",
     ]
     hfile = os.path.join(vlib.VERIF, "harness/go", WH, "zz_verif_c04.go")
@@ -21,13 +22,14 @@ def run(tier, seed):
     open(os.path.join(wdir, "c04mem.wat"), "w").write(wasmgen.c04_mem_wat())
     import shutil
     shutil.copy(os.path.join(vlib.VERIF, "harness/wat/c04_ctl.wat"), os.path.join(wdir, "c04ctl.wat"))
+    shutil.copy(os.path.join(vlib.VERIF, "harness/wat/c05_decl.wat"), os.path.join(wdir, "c04decl.wat"))
     ov = vlib.make_overlay(c.scratch, [{"dir": WH, "name": "wh"}, {"dir": WB, "name": "main", "rt": False}])
-    mods = ("c04ops", "c04mem", "c04ctl")
+    mods = ("c04ops", "c04mem", "c04ctl", "c04decl")
     failed = vlib.build_wasm_keepgoing(c.scratch, ov, [["wat2wasm", os.path.join(wdir, n + ".wat"), os.path.join(wdir, n + ".wasm")] for n in mods])
     asm_violations = []
     for i, err in failed.items():
         name = mods[i]
-        if name == "c04ctl":
+        if name in ("c04ctl", "c04decl"):
             asm_violations.append((name, "whole module", err, open(os.path.join(wdir, name + ".wat")).read()))
             continue
         # the tree's assembler rejects (or crashes on) a valid generated module: find the functions responsible,
@@ -61,8 +63,8 @@ def run(tier, seed):
     skip = set(fn for _, fn, _, _ in asm_violations)
     vlib.REPLAY_ENV["VF_WASM_DIR"] = wdir
     c.extra_cov["programs"] = len(ops)
-    c.run_unit(WH, "wh", harnesses=["VfH_ops", "VfH_mem", "VfH_ctl"], extra_pkgs=[{"dir": WB, "name": "main", "rt": False}],
-               opts={"wasm": ",".join("%s=%s" % (n, os.path.join(wdir, n + ".wasm")) for n in ("c04ops", "c04mem", "c04ctl")), "samples": 2})
+    c.run_unit(WH, "wh", harnesses=["VfH_ops", "VfH_mem", "VfH_ctl", "VfH_decl"], extra_pkgs=[{"dir": WB, "name": "main", "rt": False}],
+               opts={"wasm": ",".join("%s=%s" % (n, os.path.join(wdir, n + ".wasm")) for n in mods), "samples": 2})
     return c.finish()
 
 
